@@ -147,7 +147,7 @@ def rand_cfg(rng, ctx=0, mtu=None, wifi=None):
     w = wifi if wifi is not None else (rng.random() < 0.4)
     if w:
         kw.update(wifi=rng.choice([0, 1, 2, 255]), bssid=bytes(rng.randrange(256) for _ in range(6)),
-                  ssid=bytes(rng.randrange(1, 256) for _ in range(rng.choice([0, 1, 5, 31, 32, 33, 40]))),
+                  ssid=bytes(rng.choice([0, rng.randrange(256), rng.randrange(1, 256), rng.randrange(1, 256)]) for _ in range(rng.choice([0, 1, 5, 31, 32, 33, 40]))),
                   rate=rng.choice([0, 1, 108, 0xFFFF, 0x0100, rng.randrange(65536)]), rssi=rng.choice([-128, -127, -70, -1, 0, 1, 127]))
         if rng.random() < 0.5: kw['phy'] = rng.choice([1, 2, 7, 0xFFFFFFFF])
     for f in ('iftypefail', 'ipv4fail', 'ipv6fail', 'speedfail', 'bssidfail', 'ratefail', 'rssifail'):
@@ -178,10 +178,13 @@ class MapperTracker:
 
 class SeeTracker:
     """C07: observations recorded since the last Query / topology Reset (keys = Ethernet source x real source)."""
-    def __init__(self, own): self.own = own; self.pending = {}   # key -> (type, rsrc, esrc, edst)
+    def __init__(self, own): self.own = own; self.pending = {}; self.open = False   # key -> (type, rsrc, esrc, edst)
     def feed_probe(self, d):
         if d['rdst'] != self.own: return
         k = (d['esrc'], d['rsrc'])
+        # C07 speaks of up to 300 observations between two Queries; near the responder's fixed bound (C19) it may refuse
+        # further ones, so from there on (until a Reset) the dictionary no longer says what must be reported
+        if len(self.pending) >= 1000: self.open = True; return
         if k not in self.pending: self.pending[k] = (1 if d['opc'] == 4 else 0, d['rsrc'], d['esrc'], d['edst'])
 
 # ------------------------------------------------------------------ session generator
@@ -260,3 +263,42 @@ def fam_mtu_change(s, tag, rng, n):
         s.lines.append('cfg 0 mtu=%d' % m1 + (' mtufail=1' if r < 0.15 else ''))
         s.frame(0, query(M, OWN0, seq=3)); s.frame(0, qlt(M, OWN0, 14, m0 - 34, seq=4)); s.frame(0, qlt(M, OWN0, 17, 0, seq=5)); s.frame(0, query(M, OWN0, seq=6))
         s.frame(0, discover(M, gen=1)); s.frame(0, query(M, OWN0, seq=7)); s.frame(0, qlt(M, OWN0, 14, 0, seq=8))
+
+# ------------------------------------------------------------------ the same history while ANOTHER interface is busy
+def other_iface_variants(text, rng, n, stride=None):
+    """-> scenario text: n of the scenarios of `text` (all judged on interface 0) repeated with a second interface that
+    has other attributes (address, MTU, wireless) and lives through a full session of its own - Discover from another
+    mapper, Emit, observations, Query, large-property requests - before, and again in the middle of, interface 0's
+    history.  Whatever interface 0 does must not depend on it (per-interface state kept in a place shared by all:
+    function-local statics, caches keyed by nothing).  The oracles of the single-interface properties only judge
+    `frame 0 ...` operations; the model comparison covers both interfaces."""
+    scns = []
+    cur = None
+    for l in text.split('\n'):
+        if l.startswith('scenario'): cur = [l.split()[1]]; scns.append(cur)
+        elif cur is not None and l.strip(): cur.append(l)
+    if not scns: return ''
+    stride = stride or max(1, len(scns) // max(1, n))
+    out = []
+    M2 = mac(61); E2 = mac(62)
+    for sc in scns[::stride][:n]:
+        name, lines = sc[0], sc[1:]
+        if any(l.startswith(('cfg 1', 'frame 1')) for l in lines): continue
+        c1 = rand_cfg(rng, 1, mtu=rng.choice([576, 1500, 1492, 9216]), wifi=rng.random() < 0.6)
+        c1.d['mac'] = bytes([2, 0xEE, 0, 0, rng.randrange(256), rng.randrange(1, 255)])
+        own1 = c1.own()
+        def burst(seq0):
+            b = Scn()
+            b.frame(1, discover(M2, gen=rng.choice([7, 0x1234]), seq=seq0, esrc=E2))
+            for i in range(3): b.frame(1, probe(mac(3000 + i), own1, mac(3000 + i), own1, train=i == 1))
+            b.frame(1, emit(M2, own1, [(0, 1, mac(3100), mac(3101)), (1, 0, own1, mac(3102))], seq=seq0 + 1, esrc=E2))
+            b.frame(1, qlt(M2, own1, 14, 0, seq=seq0 + 2, esrc=E2)); b.frame(1, qlt(M2, own1, 17, 0, seq=seq0 + 3, esrc=E2)); b.frame(1, qlt(M2, own1, 19, 0, seq=seq0 + 4, esrc=E2))
+            b.frame(1, query(M2, own1, seq=seq0 + 5, esrc=E2))
+            return b.lines
+        k = 0
+        while k < len(lines) and lines[k].startswith(('cfg', 'junk')): k += 1
+        rest = lines[k:]
+        mid = rng.randrange(len(rest) + 1) if rest else 0
+        out.append('scenario %s_oth' % name)
+        out += lines[:k] + [c1.line()] + burst(100) + rest[:mid] + burst(200) + rest[mid:]
+    return '\n'.join(out) + '\n'
